@@ -123,7 +123,7 @@ prop('C26',
      functions_encoded=['interpreter::gas::{gas_charge, dependent_gas_charge, dependent_gas_charge_without_base}', 'Interpreter::{gas_charge, dependent_gas_charge}',
                         'fuel_tx::DependentCost::{resolve, resolve_without_base, base}',
                         'per-instruction schedule: every handler harness of C21/C25 runs with a fully symbolic gas table and asserts the charged entry'],
-     bounds=['all u64 values of cgas<=ggas, cost, units, base, per-unit factors', 'LightOperation quotient specified with the same `/` operator (operand order and combination decided; the divider circuit itself is trusted)'],
+     bounds=['all u64 values of cgas<=ggas, cost, units, base, per-unit factors', 'LightOperation quotient: all u64 units for the concrete divisors {1,2,3,7,10,1000,2^32+1,2^64-1} (a symbolic 64-bit divisor does not finish)'],
      assumptions=[VM_STUBS_NOTE, 'units_per_gas >= 1 (documented contract)'],
      out_of_claim=['run_program gas_used accounting and call/return gas forwarding (C28/C34 harnesses, not yet built)', 'composition over whole programs (induction argument)'],
      level_text='Bounded model checking of the gas kernel at full 64-bit width; per-instruction charges are asserted inside the instruction-step harnesses of C21/C25 with a symbolic schedule.',
